@@ -473,6 +473,9 @@ func (r *Runner) assignVal(name string, prev expand.Variable, as *syntax.Assign,
 	if as.Append {
 		switch prev.Kind {
 		case expand.Unknown:
+		case expand.NameRef:
+			// A name reference which could not be resolved, such as an empty one;
+			// there is no previous value to append to.
 		case expand.String:
 			list = []string{prev.Str}
 		case expand.Indexed:
